@@ -154,6 +154,19 @@ func init() {
 		rb := in.tb.FRoundOp(OpFRound, in.tb.FMul(b, scale))
 		return in.tb.Or(in.tb.Eq(a, b), in.tb.Eq(ra, rb))
 	}
+	// verifGarbled(s): s contains the output of a formatting call whose format string had a
+	// symbolic byte that may be '%'
+	shims["verifGarbled"] = func(in *Interp, fr *frame, args []value) value {
+		if _, ok := args[0].(string); ok {
+			return in.tb.False
+		}
+		for _, a := range in.ropeOf(args[0]).atoms {
+			if a.op != nil && a.op.verb == "fmt-garbled" {
+				return in.tb.True
+			}
+		}
+		return in.tb.False
+	}
 	// verifNums: the rendered floating-point values inside a string, in order.
 	shims["verifNums"] = func(in *Interp, fr *frame, args []value) value {
 		r := in.ropeOf(args[0])
